@@ -125,7 +125,9 @@ def derive(rng, cur, depth=0):
                 else:
                     child[k] = {}
             elif isinstance(v, list):
-                if r < 10:
+                if r < 3:
+                    child[k] = []                                 # an explicit empty list still strips $required
+                elif r < 10:
                     child[k] = list_patch(rng, v)
                 elif r < 11:
                     child[k] = rng.pick([5, "s", {"a": 1}])      # scalar / map over a list
@@ -167,6 +169,8 @@ def base_tree(rng, depth=3):
         if rng.chance(1, 3):     # mixed lists: maps next to scalars and lists
             items.insert(rng.below(len(items) + 1), rng.pick([1, "foo", [1], None]))
         t[rng.pick(["l", "items"])] = items
+    if rng.chance(1, 4):
+        t[rng.pick(["req", "hosts"])] = rng.pick([["$required"], ["$required", 1], [1, "$required", {"a": 1}], "$required"])
     return t
 
 
